@@ -618,20 +618,38 @@ func rdWfB(r io.ByteReader) bool {
 // self-recursive body makes gcv treat it as uninterpreted).
 func SpecNameHash(n Name) uint64 { return SpecNameHash(n) }
 
+// A-HASH, made explicit for the hash-keyed tables (fw/table hash-table FIB): the hash identifies the name, so the
+// following are functions of the hash value (all uninterpreted; nothing else is assumed about them):
+//
+//	SpecPrefixHash(n, k)  the hash of the prefix n[:k]            (SpecPrefixHash(n, len(n)) == SpecNameHash(n))
+//	SpecHashLen(h)        the number of components of the name identified by h
+//	SpecHashPrefix(h, j)  the hash of the j-component prefix of the name identified by h
+func SpecPrefixHash(n Name, k int) uint64   { return SpecPrefixHash(n, k) }
+func SpecHashLen(h uint64) int              { return SpecHashLen(h) }
+func SpecHashPrefix(h uint64, j int) uint64 { return SpecHashPrefix(h, j) }
+
 //@ func (Name).Hash
 //@   trusted
 //@   option allocs-other
 //@   ensures result == SpecNameHash(n)
+//@   ensures [a-hash] result == SpecPrefixHash(n, len(n)) && SpecHashLen(result) == len(n)
 
 //@ func (Name).Clone
 //@   trusted
 //@   option allocs-other
 //@   ensures SpecNameHash(result) == SpecNameHash(n) && len(result) == len(n) && fresh(result)
 
+// PrefixHash: ret[k] is the hash of the prefix of length k (its documentation), for k = 0..len(n).
+//
 //@ func (Name).PrefixHash
 //@   trusted
 //@   option allocs-other
-//@   ensures len(result) == len(n)+1
+//@   ensures len(result) == len(n)+1 && fresh(result) && sliceOff(result) == 0
+//@   ensures forallIn(0, len(n)+1, func(k int) bool { return result[k] == SpecPrefixHash(n, k) })
+//@   ensures result[len(n)] == SpecNameHash(n)
+//@   ensures [uint64-range] forallIn(0, len(n)+1, func(k int) bool { return SpecPrefixHash(n, k) >= 0 && SpecPrefixHash(n, k) <= 18446744073709551615 })
+//@   ensures [a-hash-len] forallIn(0, len(n)+1, func(k int) bool { return SpecHashLen(SpecPrefixHash(n, k)) == k })
+//@   ensures [a-hash-prefix] forall(func(k int, j int) bool { return 0 <= j && j <= k && k <= len(n) ==> SpecHashPrefix(SpecPrefixHash(n, k), j) == SpecPrefixHash(n, j) })
 
 //@ func (Component).Hash
 //@   trusted
